@@ -112,6 +112,13 @@ def locate(doc, coords):
             return None
         parent = crd.parent
         ref = crd.parentref
+        if type(node) is list and len(node) == 1 \
+                and isinstance(parent, list) and isinstance(ref, int) \
+                and -len(parent) <= ref < len(parent) \
+                and parent[ref] is node[0]:
+            # a one-element slice [n:n] is reported as a fresh plain list
+            # wrapping the element in slot n: the match is that element
+            node = node[0]
         if parent is None:
             if node is doc:
                 out.append(())
@@ -333,6 +340,11 @@ def gen_path(rng, tree, want="any"):
             hi = lo + 1
             text = "[%d:%d]" % (lo, hi if hi < 0 else size)
             return join(base, text, sep), "negative-slice"
+        if roll < 0.575:
+            # a one-element slice [n:n]: the read path reports it as one
+            # result whose node is a fresh list wrapping the element (S04o)
+            ref = last[1] - size if rng.random() < 0.4 else last[1]
+            return join(base, "[%d:%d]" % (ref, ref), sep), "point-slice"
         if roll < 0.62:
             lo = rng.randrange(0, last[1] + 1)
             hi = rng.randrange(last[1] + 1, size + 1)
@@ -1262,8 +1274,9 @@ def run_session(seed, prop, shard, idx, tier):
         except Violation as ex:
             viol = ex
             break
-        except SessionAbort:
+        except SessionAbort as ex:
             sess.stats["aborted"] = 1
+            sess.stats["abort_reason"] = str(ex)[:60]
             break
     return recipe, sess, viol
 
@@ -1372,7 +1385,7 @@ def shard_main(payload):
     agg = {"sessions": 0, "steps": 0, "matched": 0, "skipped": 0,
            "forms": set(), "violations": [], "digests": [], "samples": [],
            "other_property": {}, "behaviours": set(), "discarded": 0,
-           "aborted": 0}
+           "aborted": 0, "abort_reasons": {}}
     for idx in range(lo, hi):
         recipe, sess, viol = run_session(seed, prop, shard, idx, tier)
         agg["sessions"] += 1
@@ -1381,6 +1394,9 @@ def shard_main(payload):
         agg["skipped"] += sess.stats["skipped"]
         agg["discarded"] += sess.stats.get("discarded", 0)
         agg["aborted"] += sess.stats.get("aborted", 0)
+        if sess.stats.get("abort_reason"):
+            why = sess.stats["abort_reason"]
+            agg["abort_reasons"][why] = agg["abort_reasons"].get(why, 0) + 1
         agg["cli_sessions"] = agg.get("cli_sessions", 0) + \
             (1 if recipe.get("cli") else 0)
         agg["forms"] |= sess.stats["forms"]
@@ -1558,6 +1574,7 @@ def main():
     samples = []
     digests = []
     other = {}
+    reasons = {}
     for res in results:
         for key in agg:
             agg[key] += res.get(key, 0)
@@ -1568,6 +1585,8 @@ def main():
         digests.extend(res["digests"])
         for key, num in res["other_property"].items():
             other[key] = other.get(key, 0) + num
+        for key, num in res.get("abort_reasons", {}).items():
+            reasons[key] = reasons.get(key, 0) + num
     if args.digest_only:
         text = "\n".join("%d %s" % d for d in sorted(digests))
         print("BATCH-DIGEST %s" % hashlib.sha256(text.encode()).hexdigest())
@@ -1644,6 +1663,7 @@ def main():
             "sessions_cut_short_outside_the_checkable_domain_"
             "(ruamel_merge_source_delete,_unjudged_alias_step_failed)":
                 agg["aborted"],
+            "sessions_cut_short_by_reason": dict(sorted(reasons.items())),
             "path_forms_exercised": sorted("%s:%s" % f for f in forms),
             "steps_per_hour": round(agg["steps"] / max(wall, 1e-6) * 3600),
             "violations_of_other_properties_seen": other,
